@@ -248,6 +248,46 @@ func setArgs(e ast.Expr) []string {
 type gen struct {
 	props map[string]int
 	units map[string]int
+	datas *ast.File
+	ltp   map[int]*big.Rat // LengthsToPixels, exact
+}
+
+// f32Q is the exact rational value of float32(r)
+func f32Q(x float32) *big.Rat { return new(big.Rat).SetFloat64(float64(x)) }
+
+// toPixels evaluates `X.ToPixels()` for a package-level Point variable X, the way
+// the Go runtime does at package initialisation: Value * LengthsToPixels[Unit] in
+// float32 (utils.go Dimension.ToPixels).
+func (g *gen) toPixels(name string) (string, bool) {
+	cl, ok := findVar(g.datas, name).(*ast.CompositeLit)
+	if !ok || len(cl.Elts) != 2 {
+		return "", false
+	}
+	var parts []string
+	for _, el := range cl.Elts {
+		d, isLit := el.(*ast.CompositeLit)
+		if !isLit {
+			return "", false
+		}
+		var val *big.Rat
+		unit := 0
+		for _, kv := range kvs(d) {
+			switch identName(kv.Key) {
+			case "Value":
+				val = ratOf(constExpr(kv.Value))
+			case "Unit":
+				unit = g.units[identName(kv.Value)]
+			}
+		}
+		c, known := g.ltp[unit]
+		if val == nil || !known {
+			return "", false
+		}
+		v32, _ := val.Float32()
+		c32, _ := c.Float32()
+		parts = append(parts, fmt.Sprintf("%s %d", coqQ(f32Q(v32*c32)), g.units["Px"]))
+	}
+	return "VPoint " + strings.Join(parts, " "), true
 }
 
 // dimension evaluates Dimension{Value: c, Unit: U} / {Value..} / ZeroPixels
@@ -300,6 +340,14 @@ func (g *gen) value(e ast.Expr) string {
 			return fmt.Sprintf("VDim \"\" 0%%Q %d", g.units["Px"])
 		}
 	case *ast.CallExpr:
+		if sel, isSel := v.Fun.(*ast.SelectorExpr); isSel && sel.Sel.Name == "ToPixels" && len(v.Args) == 0 {
+			if x, isId := sel.X.(*ast.Ident); isId {
+				if s, ok := g.toPixels(x.Name); ok {
+					return s
+				}
+			}
+			return opaque
+		}
 		fn, isId := v.Fun.(*ast.Ident)
 		if !isId || len(v.Args) != 1 {
 			return opaque
@@ -341,6 +389,17 @@ func (g *gen) value(e ast.Expr) string {
 				parts[i] = coqStr(strLit(el))
 			}
 			return "VDisplay " + strings.Join(parts, " ")
+		case "Marks":
+			crop, cross := "false", "false"
+			for _, kv := range kvs(v) {
+				switch identName(kv.Key) {
+				case "Crop":
+					crop = identName(kv.Value)
+				case "Cross":
+					cross = identName(kv.Value)
+				}
+			}
+			return fmt.Sprintf("VMarks %s %s", crop, cross)
 		case "BoolString":
 			b, s := "false", `""`
 			for _, kv := range kvs(v) {
@@ -417,6 +476,15 @@ func main() {
 	var order []string
 	g.props, order = iotaBlock(fprops, "KnownProp")
 	g.units, _ = iotaBlock(fdatas, "Unit")
+	g.datas = fdatas
+	g.ltp = map[int]*big.Rat{}
+	for _, kv := range kvs(findVar(fdatas, "LengthsToPixels")) {
+		u, ok := g.units[identName(kv.Key)]
+		if !ok {
+			die("LengthsToPixels: unknown unit %s", src(kv.Key))
+		}
+		g.ltp[u] = ratOf(constExpr(kv.Value))
+	}
 	nb, ok := g.props["NbProperties"]
 	if !ok || order[len(order)-1] != "NbProperties" {
 		die("NbProperties must close the KnownProp block")
